@@ -448,8 +448,8 @@ Definition pg_inv (p : pg_doc) : Prop :=
   exists pn d,
     pg_root_pages p = PvRef pn /\
     pg_lookup (pd_store p) pn = Some (PcObj (PvDict d)) /\
-    pg_dget d k_Kids = PvArr (map PvRef (pd_all p)) /\
-    pg_dget d k_Count = PvInt (pg_len (pd_all p)) /\
+    pg_dget d pgk_Kids = PvArr (map PvRef (pd_all p)) /\
+    pg_dget d pgk_Count = PvInt (pg_len (pd_all p)) /\
     pn <> pd_root p /\ ~ In pn (pd_all p) /\ ~ In (pd_root p) (pd_all p) /\
     NoDup (pd_all p) /\
     (forall i, In i (pd_all p) -> pg_lookup (pd_store p) i <> None) /\
@@ -468,16 +468,16 @@ Lemma pg_insert_core_ok : forall p ni pos,
     pd_all p' = pg_list_ins (pd_all p) (Z.to_nat pos) ni /\
     pd_root p' = pd_root p /\ pd_omap p' = pd_omap p /\ pd_reg p' = pd_reg p /\
     (forall j, j <> ni -> pg_root_pages p <> PvRef j -> pg_lookup (pd_store p') j = pg_lookup (pd_store p) j) /\
-    (forall k, k <> k_Parent -> pg_hget (pd_store p') (PvRef ni) k = pg_hget (pd_store p) (PvRef ni) k).
+    (forall k, k <> pgk_Parent -> pg_hget (pd_store p') (PvRef ni) k = pg_hget (pd_store p) (PvRef ni) k).
 Proof.
   intros p ni pos (pn & d & Hroot & Hpn & Hkids & Hcount & Hpnroot & Hpnall & Hrootall & Hnd & Hex & Hpos & Hposnd & Hinv)
          Hni Hnin Hniroot Hnipn [Hp0 Hp1].
   assert (ni <> pn) as Hnp by (intros ->; apply Hnipn; exact Hroot).
   unfold pg_insert_core. rewrite Hroot.
-  set (s1 := pg_obj_set_key (pd_store p) ni k_Parent (PvRef pn)).
+  set (s1 := pg_obj_set_key (pd_store p) ni pgk_Parent (PvRef pn)).
   assert (Hs1pn : pg_lookup s1 pn = Some (PcObj (PvDict d))).
   { unfold s1. rewrite pg_lookup_obj_set_key_other by congruence. exact Hpn. }
-  assert (Hk1 : pg_hget s1 (PvRef pn) k_Kids = PvArr (map PvRef (pd_all p))).
+  assert (Hk1 : pg_hget s1 (PvRef pn) pgk_Kids = PvArr (map PvRef (pd_all p))).
   { unfold pg_hget, pg_rv. rewrite Hs1pn. exact Hkids. }
   rewrite Hk1. cbn [pg_rv]. rewrite map_length.
   unfold pg_len in Hp1.
@@ -496,11 +496,11 @@ Proof.
   assert (Nat.leb (S n) n = false) as -> by (apply Nat.leb_gt; lia).
   rewrite Hpos, Hnone. cbn [option_map].
   eexists. split; [reflexivity|].
-  set (s2 := pg_obj_set_key s1 pn k_Kids (PvArr (map PvRef all'))).
-  set (s3 := pg_obj_set_key s2 pn k_Count (PvInt (Z.of_nat (length all')))).
-  assert (Hs2pn : pg_lookup s2 pn = Some (PcObj (PvDict (pg_dset d k_Kids (PvArr (map PvRef all')))))).
+  set (s2 := pg_obj_set_key s1 pn pgk_Kids (PvArr (map PvRef all'))).
+  set (s3 := pg_obj_set_key s2 pn pgk_Count (PvInt (Z.of_nat (length all')))).
+  assert (Hs2pn : pg_lookup s2 pn = Some (PcObj (PvDict (pg_dset d pgk_Kids (PvArr (map PvRef all')))))).
   { unfold s2. apply pg_lookup_obj_set_key_dict. exact Hs1pn. }
-  assert (Hs3pn : pg_lookup s3 pn = Some (PcObj (PvDict (pg_dset (pg_dset d k_Kids (PvArr (map PvRef all'))) k_Count (PvInt (Z.of_nat (length all'))))))).
+  assert (Hs3pn : pg_lookup s3 pn = Some (PcObj (PvDict (pg_dset (pg_dset d pgk_Kids (PvArr (map PvRef all'))) pgk_Count (PvInt (Z.of_nat (length all'))))))).
   { unfold s3. apply pg_lookup_obj_set_key_dict. exact Hs2pn. }
   assert (Hframe : forall j, j <> ni -> j <> pn -> pg_lookup s3 j = pg_lookup (pd_store p) j).
   { intros j Hj1 Hj2. unfold s3, s2, s1. rewrite !pg_lookup_obj_set_key_other by assumption. reflexivity. }
@@ -508,7 +508,7 @@ Proof.
   { intros j Hj. unfold s3, s2, s1. repeat apply pg_lookup_obj_set_key_some. exact Hj. }
   split; [|split; [reflexivity|split; [reflexivity|split; [reflexivity|split; [reflexivity|split]]]]].
   - (* invariant *)
-    exists pn, (pg_dset (pg_dset d k_Kids (PvArr (map PvRef all'))) k_Count (PvInt (Z.of_nat (length all')))).
+    exists pn, (pg_dset (pg_dset d pgk_Kids (PvArr (map PvRef all'))) pgk_Count (PvInt (Z.of_nat (length all')))).
     cbn [pd_store pd_all pd_pos pd_invalid pd_root pd_with_pos pd_with_all pd_with_store].
     split; [|split; [exact Hs3pn|split; [|split; [|split; [exact Hpnroot|split; [|split; [|split; [exact Hnd'|split; [|split; [|split]]]]]]]]]].
     + rewrite <- Hroot. apply pg_root_pages_ext; [reflexivity|].
@@ -551,7 +551,7 @@ Lemma pg_erase_core_ok : forall p og k,
 Proof.
   intros p og k (pn & d & Hroot & Hpn & Hkids & Hcount & Hpnroot & Hpnall & Hrootall & Hnd & Hex & Hpos & Hposnd & Hinv) Hk.
   unfold pg_erase_core. rewrite Hroot.
-  assert (Hk1 : pg_hget (pd_store p) (PvRef pn) k_Kids = PvArr (map PvRef (pd_all p))).
+  assert (Hk1 : pg_hget (pd_store p) (PvRef pn) pgk_Kids = PvArr (map PvRef (pd_all p))).
   { unfold pg_hget, pg_rv. rewrite Hpn. exact Hkids. }
   rewrite Hk1. rewrite Nat2Z.id.
   set (all' := pg_list_del (pd_all p) k).
@@ -561,11 +561,11 @@ Proof.
   assert (Nat.leb (length (pd_all p)) k = false) as -> by (apply Nat.leb_gt; exact Hlt).
   eexists. split; [reflexivity|].
   assert (Hnd' : NoDup all') by (apply pg_NoDup_del; assumption).
-  set (s2 := pg_obj_set_key (pd_store p) pn k_Kids (PvArr (map PvRef all'))).
-  set (s3 := pg_obj_set_key s2 pn k_Count (PvInt (Z.of_nat (length all')))).
-  assert (Hs2pn : pg_lookup s2 pn = Some (PcObj (PvDict (pg_dset d k_Kids (PvArr (map PvRef all')))))).
+  set (s2 := pg_obj_set_key (pd_store p) pn pgk_Kids (PvArr (map PvRef all'))).
+  set (s3 := pg_obj_set_key s2 pn pgk_Count (PvInt (Z.of_nat (length all')))).
+  assert (Hs2pn : pg_lookup s2 pn = Some (PcObj (PvDict (pg_dset d pgk_Kids (PvArr (map PvRef all')))))).
   { unfold s2. apply pg_lookup_obj_set_key_dict. exact Hpn. }
-  assert (Hs3pn : pg_lookup s3 pn = Some (PcObj (PvDict (pg_dset (pg_dset d k_Kids (PvArr (map PvRef all'))) k_Count (PvInt (Z.of_nat (length all'))))))).
+  assert (Hs3pn : pg_lookup s3 pn = Some (PcObj (PvDict (pg_dset (pg_dset d pgk_Kids (PvArr (map PvRef all'))) pgk_Count (PvInt (Z.of_nat (length all'))))))).
   { unfold s3. apply pg_lookup_obj_set_key_dict. exact Hs2pn. }
   assert (Hframe : forall j, j <> pn -> pg_lookup s3 j = pg_lookup (pd_store p) j).
   { intros j Hj. unfold s3, s2. rewrite !pg_lookup_obj_set_key_other by assumption. reflexivity. }
@@ -575,7 +575,7 @@ Proof.
      | Some k0 => if Nat.ltb k0 k then Some k0 else if Nat.eqb k0 k then None else Some (pred k0) | None => None end).
   { intros i. apply pg_index_del. exact Hnd. }
   split; [|split; [reflexivity|split; [reflexivity|split; [reflexivity|split; [reflexivity|]]]]].
-  - exists pn, (pg_dset (pg_dset d k_Kids (PvArr (map PvRef all'))) k_Count (PvInt (Z.of_nat (length all')))).
+  - exists pn, (pg_dset (pg_dset d pgk_Kids (PvArr (map PvRef all'))) pgk_Count (PvInt (Z.of_nat (length all')))).
     cbn [pd_store pd_all pd_pos pd_invalid pd_root pd_with_pos pd_with_all pd_with_store].
     split; [|split; [exact Hs3pn|split; [|split; [|split; [exact Hpnroot|split; [|split; [|split; [exact Hnd'|split; [|split; [|split]]]]]]]]]].
     + rewrite <- Hroot. apply pg_root_pages_ext; [reflexivity|]. cbn [pd_store pd_root]. apply Hframe. congruence.
@@ -662,7 +662,7 @@ Lemma pg_insert_local_ok : forall p i pos,
     pd_all p' = pg_list_ins (pd_all p) (Z.to_nat pos) ni /\ ~ In ni (pd_all p) /\
     (In i (pd_all p) -> ni = pg_next_id (pd_store p)) /\ (~ In i (pd_all p) -> ni = i) /\
     pd_root p' = pd_root p /\ pd_omap p' = pd_omap p /\ pd_reg p' = pd_reg p /\
-    pg_marks p' = sp_insert (pg_marks p) (Z.to_nat pos) (pg_mark (pd_store p) i).
+    pg_marks p' = pgsp_insert (pg_marks p) (Z.to_nat pos) (pg_mark (pd_store p) i).
 Proof.
   intros p i pos Hi Hex Hiroot Hipn Hstr [Hp0 Hp1].
   unfold pg_insert_local.
@@ -677,9 +677,9 @@ Proof.
      pd_all p1 = pg_list_ins (pd_all p) (Z.to_nat pos) ni ->
      (forall j, j <> ni -> pg_root_pages p0 <> PvRef j -> pg_lookup (pd_store p1) j = pg_lookup (pd_store p0) j) ->
      pg_mark (pd_store p1) ni = pg_mark (pd_store p) i ->
-     pg_marks p1 = sp_insert (pg_marks p) (Z.to_nat pos) (pg_mark (pd_store p) i)).
+     pg_marks p1 = pgsp_insert (pg_marks p) (Z.to_nat pos) (pg_mark (pd_store p) i)).
   { intros p0 ni p1 _ Hall0 Hl0 Hroot0 Hnin Hall1 Hfr Hmk.
-    unfold pg_marks, sp_insert. rewrite Hall1.
+    unfold pg_marks, pgsp_insert. rewrite Hall1.
     assert (Hn : (Z.to_nat pos <= length (pd_all p))%nat) by (unfold pg_len in Hp1; lia).
     rewrite pg_list_ins_spec by exact Hn. rewrite map_app. cbn [map]. rewrite Hmk.
     rewrite firstn_map, skipn_map.
@@ -744,18 +744,18 @@ Lemma pg_put_get : forall w d, pg_put w d (pg_get w d) = w.
 Proof. intros [a b] []; reflexivity. Qed.
 
 Definition pg_marks2 (w : pg_world) : pg_lists := (pg_marks (fst w), pg_marks (snd w)).
-Lemma pg_marks2_sel : forall w d, sp_sel (pg_marks2 w) d = pg_marks (pg_get w d).
+Lemma pg_marks2_sel : forall w d, pgsp_sel (pg_marks2 w) d = pg_marks (pg_get w d).
 Proof. intros [a b] []; reflexivity. Qed.
-Lemma pg_marks2_put : forall w d p, pg_marks2 (pg_put w d p) = sp_upd (pg_marks2 w) d (pg_marks p).
+Lemma pg_marks2_put : forall w d p, pg_marks2 (pg_put w d p) = pgsp_upd (pg_marks2 w) d (pg_marks p).
 Proof. intros [a b] [] p; reflexivity. Qed.
 
 Definition pg_val_mark (v : pg_val) : Z :=
-  match v with PvDict dd => match pg_dget dd k_Mk with PvInt z => z | _ => (-1)%Z end | _ => (-1)%Z end.
+  match v with PvDict dd => match pg_dget dd pgk_Mk with PvInt z => z | _ => (-1)%Z end | _ => (-1)%Z end.
 
 Lemma pg_mark_obj : forall s i v, pg_lookup s i = Some (PcObj v) -> pg_mark s i = pg_val_mark v.
 Proof.
   intros s i v H. unfold pg_mark, pg_marker, pg_hget, pg_rv, pg_val_mark. rewrite H.
-  destruct v; try reflexivity. destruct (pg_dget l k_Mk); reflexivity.
+  destruct v; try reflexivity. destruct (pg_dget l pgk_Mk); reflexivity.
 Qed.
 
 (* what may be handed to the insertion calls in the part of the theorems proved here: a direct object, or an
@@ -793,7 +793,7 @@ Lemma pg_insert_ok : forall w d h pos,
   pg_inv (pg_get w d) -> pd_all (pg_get w d) <> [] -> pg_operand_ok w d h ->
   (0 <= pos <= pg_len (pd_all (pg_get w d)))%Z ->
   exists p', pg_insert w d h pos = (pg_put w d p', None) /\ pg_inv p' /\ pd_all p' <> [] /\
-    pg_marks p' = sp_insert (pg_marks (pg_get w d)) (Z.to_nat pos) (pg_operand_mark w h).
+    pg_marks p' = pgsp_insert (pg_marks (pg_get w d)) (Z.to_nat pos) (pg_operand_mark w h).
 Proof.
   intros w d h pos Hi Hne Hop Hpos. unfold pg_insert.
   rewrite pg_flatten_inv by assumption. rewrite pg_put_get.
@@ -851,9 +851,9 @@ Qed.
 
 Lemma pg_map_update : forall (f f' : N -> Z) (l : list N) i k,
   NoDup l -> pg_index l i = Some k -> (forall j, j <> i -> f' j = f j) ->
-  map f' l = sp_set (map f l) k (f' i).
+  map f' l = pgsp_set (map f l) k (f' i).
 Proof.
-  intros f f' l i k Hnd Hk Hf. unfold sp_set. rewrite firstn_map, skipn_map.
+  intros f f' l i k Hnd Hk Hf. unfold pgsp_set. rewrite firstn_map, skipn_map.
   pose proof (pg_index_nth l i k Hk) as Hnth.
   assert (Hlt : (k < length l)%nat) by (eapply pg_index_lt, Hk).
   rewrite <- (firstn_skipn k l) at 1. rewrite map_app.
@@ -890,8 +890,8 @@ Definition pg_href_local (d : bool) (h : pg_href) : Prop := match h with PhObj b
 Definition pg_adm (w : pg_world) (o : pg_op) : Prop :=
   match o with
   | PoAddPage d h _ | PoHAddPage d h _ => pg_operand_ok w d h
-  | PoAddPageAt d h _ r => pg_operand_ok w d h /\ pg_href_local d r
-  | PoRemove d h => pg_href_local d h /\ (2 <= length (pd_all (pg_get w d)))%nat
+  | PoAddPageAt d h _ r => pg_operand_ok w d h
+  | PoRemove d h => (2 <= length (pd_all (pg_get w d)))%nat
   | PoFind _ _ | PoGetPages _ | PoMakeIndirect _ _ => True
   | PoShallowCopy d i => exists v, pg_lookup (pd_store (pg_get w d)) i = Some (PcObj v)
   | PoReplace d i _ => pg_not_node (pg_get w d) i
@@ -906,12 +906,15 @@ Definition pg_abs (w : pg_world) (o : pg_op) : pg_sop :=
   | PoAddPage d h first | PoHAddPage d h first =>
       SpInsert d (if first then O else length (pd_all (pg_get w d))) (pg_operand_mark w h)
   | PoAddPageAt d h before r =>
+      if pg_foreign_handle w d r then SpInvalid      (* a page of the other document is not a page of this one *)
+      else
       match pg_index (pd_all (pg_get w d)) (pg_og_of w r) with
       | Some k => SpInsert d (if before then k else S k) (pg_operand_mark w h)
       | None => SpInvalid
       end
   | PoRemove d h =>
-      match pg_index (pd_all (pg_get w d)) (pg_og_of w h) with Some k => SpRemove d k | None => SpInvalid end
+      if pg_foreign_handle w d h then SpInvalid
+      else match pg_index (pd_all (pg_get w d)) (pg_og_of w h) with Some k => SpRemove d k | None => SpInvalid end
   | PoFind d i => match pg_index (pd_all (pg_get w d)) i with Some _ => SpNop | None => SpInvalid end
   | PoReplace d i v =>
       match pg_index (pd_all (pg_get w d)) i with Some k => SpSet d k (pg_val_mark v) | None => SpNop end
@@ -931,7 +934,7 @@ Lemma pg_marks_length : forall p, length (pg_marks p) = length (pd_all p).
 Proof. intros. unfold pg_marks. apply map_length. Qed.
 
 Lemma pg_count_inv : forall p, pg_inv p ->
-  pg_rv (pd_store p) (pg_hget (pd_store p) (pg_root_pages p) k_Count) = PvInt (pg_len (pd_all p)).
+  pg_rv (pd_store p) (pg_hget (pd_store p) (pg_root_pages p) pgk_Count) = PvInt (pg_len (pd_all p)).
 Proof.
   intros p (pn & d & Hroot & Hpn & _ & Hcount & _). rewrite Hroot. unfold pg_hget, pg_rv at 2. rewrite Hpn, Hcount. reflexivity.
 Qed.
@@ -981,7 +984,9 @@ Proof.
       pose proof (pg_step_insert w d h (length (pd_all (pg_get w d))) Hg Ha ltac:(lia)) as H.
       destruct (pg_insert w d h (Z.of_nat (length (pd_all (pg_get w d))))) as [w' e]. exact H.
   - (* addPageAt *)
-    destruct Ha as [Hop Hloc]. cbn [pg_step pg_abs]. rewrite (pg_find_inv _ _ Hi Hne).
+    rename Ha into Hop. cbn [pg_step pg_abs].
+    destruct (pg_foreign_handle w d r); [cbn; split; [reflexivity|]; split; [reflexivity|exact Hg]|].
+    rewrite (pg_find_inv _ _ Hi Hne).
     destruct (pg_index (pd_all (pg_get w d)) (pg_og_of w r)) as [k|] eqn:E.
     + rewrite pg_put_get. pose proof (pg_index_lt _ _ _ E) as Hlt.
       destruct before.
@@ -992,14 +997,16 @@ Proof.
         destruct (pg_insert w d h (Z.of_nat (S k))) as [w' e]. exact H.
     + rewrite pg_put_get. cbn. split; [reflexivity|]. split; [reflexivity|]. exact Hg.
   - (* removePage *)
-    destruct Ha as [Hloc Hlen]. cbn [pg_step pg_abs]. unfold pg_erase. rewrite (pg_find_inv _ _ Hi Hne).
+    rename Ha into Hlen. cbn [pg_step pg_abs].
+    destruct (pg_foreign_handle w d h); [cbn; split; [reflexivity|]; split; [reflexivity|exact Hg]|].
+    unfold pg_erase. rewrite (pg_find_inv _ _ Hi Hne).
     destruct (pg_index (pd_all (pg_get w d)) (pg_og_of w h)) as [k|] eqn:E.
     + destruct (pg_erase_core_ok _ _ _ Hi E) as (p' & Hrun & Hi' & Hall' & _ & _ & _ & Hfr). rewrite Hrun.
       cbn [pg_res_of pg_is_err pg_spec_step]. rewrite pg_marks2_sel, pg_marks_length.
       pose proof (pg_index_lt _ _ _ E) as Hlt.
       assert (Nat.ltb k (length (pd_all (pg_get w d))) = true) as -> by (apply Nat.ltb_lt; exact Hlt).
       rewrite pg_marks2_put. split; [|split; [reflexivity|]].
-      * f_equal. unfold pg_marks, sp_remove. rewrite Hall'. rewrite pg_list_del_spec, map_app.
+      * f_equal. unfold pg_marks, pgsp_remove. rewrite Hall'. rewrite pg_list_del_spec, map_app.
         rewrite firstn_map, skipn_map.
         destruct Hi as (pn & dd & Hroot & _ & _ & _ & _ & Hpnall & _).
         assert (Hsame : forall j, In j (pd_all (pg_get w d)) -> pg_mark (pd_store p') j = pg_mark (pd_store (pg_get w d)) j).
@@ -1130,8 +1137,9 @@ Fixpoint pg_abs_hist (w : pg_world) (ops : list pg_op) : list pg_sop :=
    source); (2) updateAllPagesCache and pushInheritedAttributesToPage (need: getAllPagesInternal on a flattened tree
    returns /Kids); (3) the first flattening of a nested tree and the empty list.  These three are covered by the
    model-vs-implementation correspondence and the specification oracle of harness/c13.py only.
-   The handle-of-another-document and not-a-page operands, where the full statement is FALSE for qpdf, are the
-   refuted lemmas below. *)
+   A handle of the other document given to removePage / addPageAt is inside the theorem (it is rejected:
+   foreign_handle_rejected, repair 87382fd8); the not-a-page operands, where the full statement is FALSE for qpdf, are
+   the refuted lemmas below. *)
 Lemma pages_refine_list_partial_lemma : forall ops w, pg_good w -> pg_hist w ops ->
   pg_spec_run (pg_marks2 w) (pg_abs_hist w ops) = pg_trace w ops /\ pg_good (pg_run w ops).
 Proof.
@@ -1170,17 +1178,17 @@ Qed.
 (* ------------------------------------------------------------------ witnesses: where qpdf does not do what the property says *)
 Definition pg_ex_store : pg_store :=
   [(5, PcStream [] [65] 0);
-   (4, PcObj (PvDict [(k_Mk, PvInt 11); (k_Parent, PvRef 2); (k_Type, PvName k_Page)]));
-   (3, PcObj (PvDict [(k_Mk, PvInt 10); (k_Parent, PvRef 2); (k_Type, PvName k_Page)]));
-   (2, PcObj (PvDict [(k_Count, PvInt 2); (k_Kids, PvArr [PvRef 3; PvRef 4]); (k_Type, PvName k_Pages)]));
-   (1, PcObj (PvDict [(k_Pages, PvRef 2)]))].
+   (4, PcObj (PvDict [(pgk_Mk, PvInt 11); (pgk_Parent, PvRef 2); (pgk_Type, PvName pgk_Page)]));
+   (3, PcObj (PvDict [(pgk_Mk, PvInt 10); (pgk_Parent, PvRef 2); (pgk_Type, PvName pgk_Page)]));
+   (2, PcObj (PvDict [(pgk_Count, PvInt 2); (pgk_Kids, PvArr [PvRef 3; PvRef 4]); (pgk_Type, PvName pgk_Pages)]));
+   (1, PcObj (PvDict [(pgk_Pages, PvRef 2)]))].
 Definition pg_ex_doc : pg_doc := mkPgDoc pg_ex_store 1 [3; 4] [(3, 0%Z); (4, 1%Z)] true false [] [].
 Definition pg_ex_world : pg_world := (pg_ex_doc, pg_ex_doc).
 
 Lemma pg_ex_good : pg_good pg_ex_world.
 Proof.
   assert (pg_inv pg_ex_doc) as H.
-  { exists 2, [(k_Count, PvInt 2); (k_Kids, PvArr [PvRef 3; PvRef 4]); (k_Type, PvName k_Pages)].
+  { exists 2, [(pgk_Count, PvInt 2); (pgk_Kids, PvArr [PvRef 3; PvRef 4]); (pgk_Type, PvName pgk_Pages)].
     repeat split; try reflexivity; try discriminate.
     - simpl. intros [H|[H|[]]]; discriminate.
     - simpl. intros [H|[H|[]]]; discriminate.
@@ -1202,15 +1210,22 @@ Proof.
   split; vm_compute; [reflexivity|discriminate].
 Qed.
 
-(* FULL STATEMENT that fails: "removePage / addPageAt with a handle that belongs to the other document raise
-   (page object not referenced in /Pages tree)".  Only the object number is compared (findPage(page.getObjGen())):
-   removing B's object 3 from A removes A's own page 3. *)
-Lemma foreign_handle_rejected_refuted_lemma :
-  exists w, pg_good w /\
-    pg_is_err (snd (pg_step w (PoRemove false (PhObj true 3)))) = false /\
-    pg_marks (fst (fst (pg_step w (PoRemove false (PhObj true 3))))) = [11%Z] /\
-    pg_marks (fst w) = [10%Z; 11%Z].
-Proof. exists pg_ex_world. split; [exact pg_ex_good|]. vm_compute. repeat split; reflexivity. Qed.
+(* removePage / addPageAt with a handle that belongs to the other document raise and change nothing, in EVERY state of the
+   two documents (no invariant needed), whatever object number the handle has.  This was false before the repair
+   87382fd8 in /repo (only the object number was compared: removing B's object 3 from A removed A's own page 3; the
+   refutation of the old code is kept in the history of this file and is re-observed by the check when the repair is
+   reverted). *)
+Lemma foreign_handle_rejected_lemma : forall w d b i h before,
+  b <> d -> pg_lookup (pd_store (pg_get w b)) i <> None ->
+  pg_step w (PoRemove d (PhObj b i)) = (w, PrErr PeQ) /\
+  pg_step w (PoAddPageAt d h before (PhObj b i)) = (w, PrErr PeQ).
+Proof.
+  intros w d b i h before Hb Hex.
+  assert (pg_foreign_handle w d (PhObj b i) = true) as Hf.
+  { unfold pg_foreign_handle, pg_norm. destruct (pg_lookup (pd_store (pg_get w b)) i); [|congruence].
+    destruct b; destruct d; try reflexivity; congruence. }
+  cbn [pg_step]. rewrite Hf. split; reflexivity.
+Qed.
 
 (* FULL STATEMENT that fails: "swapObjects keeps every object usable: the data of a stream can be produced after the swap
    if it could before".  A stream made by copyForeignObject is found by the provider only under the number it was
